@@ -153,7 +153,7 @@ Proof.
                 | [] => None
                 end) as [p|].
       * destruct (tonl_func fs p (a_name (n_attrs f))); [unfold tonl_func_diag|]; cone.
-      * destruct (type_info (a_ty (n_attrs f))) as [[p tn]|]; [|cone]. destruct (tonl_method fs p (a_name (n_attrs f)) tn); cone.
+      * destruct (type_info (method_recv_type f)) as [[p tn]|]; [|cone]. destruct (tonl_method fs p (a_name (n_attrs f)) tn); cone.
     + destruct (a_obj (n_attrs f)) as [o|]; [|cone]. destruct (o_kind o); try cone. destruct (o_pkg o) as [p|]; [|cone].
       destruct (negb (o_is_method o) && tonl_func fs p (o_name o)); [unfold tonl_func_diag|]; cone.
 Qed.
